@@ -17,8 +17,10 @@ package contractcourt
 
 import (
 	"fmt"
+	"runtime/debug"
 	"strings"
 	"sync"
+	"sync/atomic"
 	"testing"
 	"time"
 
@@ -112,6 +114,7 @@ type verifCwWatch struct {
 
 	mu       sync.Mutex
 	breaches []*lnwallet.BreachRetribution
+	panicked string // the observer goroutine died with this panic
 }
 
 func (wt *verifCwWatch) stop() {
@@ -130,8 +133,9 @@ type verifCwOutcome struct {
 	remote   *RemoteUnilateralCloseInfo
 	local    *LocalUnilateralCloseInfo
 	coop     *CooperativeCloseInfo
-	returned bool // the closeObserver iteration that took the spend returned
-	dlpWait  bool // the watcher sits in the data-loss commit point wait
+	returned bool   // the closeObserver iteration that took the spend returned
+	dlpWait  bool   // the watcher sits in the data-loss commit point wait
+	panicked string // the observer goroutine panicked while handling the spend
 	logs     []string
 	dur      time.Duration
 }
@@ -149,9 +153,9 @@ func (o *verifCwOutcome) errLines() []string {
 func (o *verifCwOutcome) String() string {
 	return fmt.Sprintf("breach retributions handed to contractBreach=%d, breach event=%v, "+
 		"remote unilateral close event=%v, local unilateral close event=%v, cooperative close "+
-		"event=%v, handler returned=%v, data-loss wait=%v, took %v\nwatcher log:\n  %s",
+		"event=%v, handler returned=%v, data-loss wait=%v, took %v\nwatcher log:\n  %s\n%s",
 		len(o.breaches), o.breachEv != nil, o.remote != nil, o.local != nil, o.coop != nil,
-		o.returned, o.dlpWait, o.dur, strings.Join(o.logs, "\n  "))
+		o.returned, o.dlpWait, o.dur, strings.Join(o.logs, "\n  "), o.panicked)
 }
 
 // verifCwDeliver delivers tx as the spend of the funding outpoint to the started
@@ -216,6 +220,12 @@ wait:
 			out.returned = true
 			break wait
 		case <-tick.C:
+			wt.mu.Lock()
+			out.panicked = wt.panicked
+			wt.mu.Unlock()
+			if out.panicked != "" {
+				break wait
+			}
 			// handleUnknownRemoteState of a non-tweakless channel
 			// never returns: it polls for the data-loss commit
 			// point and says so.
@@ -317,8 +327,26 @@ func verifCwNewWatch(t testing.TB, st *channeldb.OpenChannel, signer input.Signe
 		t.Fatalf("chain watcher harness: newChainWatcher: %v", err)
 	}
 	wt.sub = wt.w.SubscribeChannelEvents()
-	if err := wt.w.Start(); err != nil {
-		t.Fatalf("chain watcher harness: Start: %v", err)
-	}
+
+	// chainWatcher.Start() spelled out (started flag, wg, go
+	// closeObserver()), with the one difference that a panic of the
+	// observer goroutine is recorded as an outcome instead of killing the
+	// test process.
+	atomic.StoreInt32(&wt.w.started, 1)
+	wt.w.wg.Add(1)
+	go func() {
+		defer func() {
+			if r := recover(); r != nil {
+				st := string(debug.Stack())
+				if len(st) > 3000 {
+					st = st[:3000]
+				}
+				wt.mu.Lock()
+				wt.panicked = fmt.Sprintf("panic: %v\n%s", r, st)
+				wt.mu.Unlock()
+			}
+		}()
+		wt.w.closeObserver()
+	}()
 	return wt
 }
